@@ -454,9 +454,20 @@ func (g *Graph) edgesWhere(pred func(Atom) bool) []int {
 
 // allPathsPass: every path from vertex `from` (inclusive) to an exit passes a vertex satisfying pred.
 func (g *Graph) allPathsPass(from int, pred func(int) bool) bool {
-	if g.node[from] != nil && pred(from) {
-		return true
-	}
-	ok, _ := g.MustPass(from, g.Exits, pred)
+	ok, _ := g.MustPassIncl(from, g.Exits, pred)
 	return ok
+}
+
+// MustPassIncl is MustPass with the start vertex included: a start that satisfies via passes, a start that is
+// itself a target (e.g. the branch consists of a bare return) fails. Use it when `from` is the first vertex of a branch.
+func (g *Graph) MustPassIncl(from int, to []int, via func(int) bool) (bool, []int) {
+	if g.node[from] != nil && via(from) {
+		return true, nil
+	}
+	for _, t := range to {
+		if t == from {
+			return false, []int{from}
+		}
+	}
+	return g.MustPass(from, to, via)
 }
